@@ -1125,7 +1125,12 @@ class ServerSSM(SSM):
         if self.segmentRetryCount < self.numberOfApduRetries:
             self.segmentRetryCount += 1
             self.start_timer(self.segmentTimeout)
-            self.fill_window(self.initialSequenceNumber)
+
+            # until the first segment is acknowledged there is no window size
+            if self.initialSequenceNumber == 0:
+                self.response(self.get_segment(0))
+            else:
+                self.fill_window(self.initialSequenceNumber)
         else:
             # give up
             self.set_state(ABORTED)
